@@ -154,8 +154,8 @@ Proof.
 Qed.
 
 (* Classification of every outcome, for both orders of the last two steps.
-   [b = false] is the code as it is: in stage SDel the inventory is still the OLD one
-   while the visible disk is already the NEW layout. *)
+   [b = true] is the code as it is; with [b = false] (the order before c37d45c) the inventory
+   in stage SDel is still the OLD one while the visible disk is already the NEW layout. *)
 Theorem outcome_classification : forall b roots g flt f0 inv0,
   wf f0 -> hidden_prog roots g = true ->
   o_dirty (run_with_fault b g flt f0 inv0) = false ->
@@ -240,9 +240,9 @@ Proof. apply wfb_wf. vm_compute. reflexivity. Qed.
 Lemma w_hidden : hidden_prog ctl_roots (apply_prog w_x) = true.
 Proof. vm_compute. reflexivity. Qed.
 
-(* the new layout on disk, the old layout in the inventory *)
-Lemma fault_in_deletions_witness :
-  let o := apply_model w_x (FDel 0 EIO) w_fs w_inv0 in
+(* OLD order (before c37d45c): the new layout on disk, the old layout in the inventory *)
+Lemma old_order_fault_in_deletions_witness :
+  let o := apply_model_old w_x (FDel 0 EIO) w_fs w_inv0 in
   o_stage o = SDel /\ o_dirty o = false /\
   visible ctl_roots (o_fs o) = [([], Dir); (["h"]%string, File [71%N] false)] /\
   visible ctl_roots (o_fs o) = visible ctl_roots (o_fs (apply_model w_x FNone w_fs w_inv0)) /\
@@ -250,9 +250,9 @@ Lemma fault_in_deletions_witness :
   o_inv o = w_inv0 /\ w_inv0 <> x_inv_new w_x.
 Proof. vm_compute. repeat split; discriminate. Qed.
 
-(* ... and with the metadata update first the same fault leaves a consistent NEW state *)
-Lemma fault_in_deletions_fixed_witness :
-  let o := apply_model_fixed w_x (FDel 0 EIO) w_fs w_inv0 in
+(* the code as it is: the same fault leaves a consistent NEW state *)
+Lemma fault_in_deletions_witness :
+  let o := apply_model w_x (FDel 0 EIO) w_fs w_inv0 in
   o_stage o = SDel /\
   visible ctl_roots (o_fs o) = visible ctl_roots (o_fs (apply_model w_x FNone w_fs w_inv0)) /\
   o_inv o = x_inv_new w_x.
